@@ -53,6 +53,9 @@ func c02Alphabet() []TNode {
 		{Path: "src/..d/x", Kind: "file", Body: "ddx"},
 		{Path: "src/d.x", Kind: "file", Body: "dx"},
 		{Path: "src/d-x", Kind: "dir"},
+		{Path: "src/ldd", Kind: "link", Target: "..data"},
+		{Path: "src/d/ldd", Kind: "link", Target: "../..d/x"},
+		{Path: "src/l3", Kind: "link", Target: "..."},
 	}
 }
 
@@ -120,8 +123,17 @@ func secOK(srcSec, srcNsec, got int64) bool {
 
 // checkC02 compares the source tree with the unpacked tree.
 func checkC02(arg PackArg, out PackOut) (mism []string, verdict bool) {
-	if out.SetupErr != "" || out.Err != "" || out.Panic != "" {
+	if out.SetupErr != "" || out.Panic != "" {
 		return nil, false
+	}
+	if out.Err != "" {
+		// every generated tree is legal (regular files, directories, relative links that stay
+		// inside, special files to skip): Pack may only fail for reasons of the environment
+		// we built (an unreadable file or directory for uid 65534)
+		if strings.Contains(out.Err, "permission denied") {
+			return nil, false
+		}
+		return []string{"Pack fails on a legal tree: " + out.Err}, true
 	}
 	if out.UnpackErr != "" {
 		return []string{"unpack of the produced slug failed: " + out.UnpackErr}, true
@@ -339,6 +351,8 @@ func classOf(ms []string) string {
 			set["unexpected"] = true
 		case strings.Contains(m, "should have been omitted"):
 			set["not-omitted"] = true
+		case strings.Contains(m, "Pack fails on a legal tree"):
+			set["pack-fails-on-legal-tree"] = true
 		case strings.Contains(m, "unpack of the produced slug failed"), strings.Contains(m, "Unpack rejects"):
 			set["unpack-rejects"] = true
 		case strings.Contains(m, ": perm"):
@@ -602,6 +616,39 @@ func RunPackTrees(id, tier string) int {
 			}
 		}
 		runSet("skeleton+<=2-links/packer-reused", t1, []packOpt{{Reuse: true}, {Deref: true, Reuse: true}})
+		// relative allow-list entries are relative to the root of EACH operation (also on a reused Packer)
+		relNodes := []TNode{{Path: "one/proj/a", Kind: "file", Body: "<SELF>"}, {Path: "one/proj/link", Kind: "link", Target: "../shared/f"}, {Path: "one/shared/f", Kind: "file", Body: "<SELF>"},
+			{Path: "two/proj/a", Kind: "file", Body: "<SELF>"}, {Path: "two/proj/link", Kind: "link", Target: "../../one/shared/f"}, {Path: "two/shared/g", Kind: "file", Body: "<SELF>"}, {Path: "two/proj/ok", Kind: "link", Target: "../shared/g"}}
+		type relCase struct {
+			src, pre string
+			mustFail bool
+		}
+		var relCases []relCase
+		for _, pre := range []string{"", "<W>/one/proj", "<W>/two/proj"} {
+			relCases = append(relCases, relCase{"<W>/one/proj", pre, false}, relCase{"<W>/two/proj", pre, true})
+		}
+		relArgs := make([]PackArg, len(relCases))
+		pool(0).Map("pack", len(relCases), func(i int) any {
+			relArgs[i] = PackArg{Nodes: relNodes, Src: relCases[i].src, AllowRel: "../shared", Reuse: relCases[i].pre != "", PreSrc: relCases[i].pre}
+			return relArgs[i]
+		}, func(i int, r core.Result) {
+			var out PackOut
+			core.MustOut(r, &out)
+			rep.Evaluations++
+			c := relCases[i]
+			desc := fmt.Sprintf("AllowSymlinkTarget(\"../shared\") pack %s after packing %q with the same Packer :: err=%q", c.src, c.pre, out.Err)
+			rep.Nontrivial("relallow" + desc)
+			switch {
+			case c.mustFail && out.Err == "":
+				rep.Violation("slug.Pack/relative-allow-list-entry-not-relative-to-this-root", desc+" — a link to ../../one/shared/f is outside two/proj and ../shared means two/shared here, yet Pack stored it", "pack", relArgs[i])
+			case c.mustFail && !out.Illegal:
+				rep.Violation("slug.Pack/policy-rejection-not-illegal-slug-error", desc, "pack", relArgs[i])
+			case !c.mustFail && out.Err != "":
+				rep.Violation("slug.Pack/allow-listed-link-refused", desc, "pack", relArgs[i])
+			}
+		})
+		rep.States += len(relCases)
+		planStats = append(planStats, map[string]any{"set": "relative-allow-list × reused packer", "runs": len(relCases)})
 	}
 	rep.Extra["sets"] = planStats
 	switch id {
